@@ -215,6 +215,9 @@ Definition dec_text (v : Z) : list Z :=
 
 (* ================================================================== the parser, relative to one input *)
 Section Parser.
+(* fixed = true : utils/demangle.c as it is now (with the seven guards added by the `fix: demangle:`
+   commits); fixed = false : the code as found (legacy), kept for the *_legacy_refuted witnesses *)
+Variable fixed : bool.
 Variable full : list Z.     (* the whole symbol string (no NUL inside) *)
 Variable base : Z.          (* dd->old = str + base  (0, or 15 after "_GLOBAL__sub_I_") *)
 
@@ -233,6 +236,10 @@ Definition suffix (i : Z) : list Z := skipn (Z.to_nat (base + i)) full.
 Definition valid_ptr (i : Z) : M := fun st =>
   let j := base + i in
   if j <? 0 then Fault F_under_read else if j <=? flen then R 0 st else Fault F_over_read.
+
+(* `strchr(set, c)` as found; `c && strchr(set, c)` after the fix *)
+Definition strchr_g (set : list Z) (c : Z) : bool :=
+  if fixed then negb (c =? 0) && strchr_set set c else strchr_set set c.
 
 Definition eof : M := fun st => R (if pos st >=? len st then 1 else 0) st.
 Definition peek (la : Z) : M := fun st =>
@@ -365,6 +372,7 @@ Fixpoint dollar_loop (k : nat) (p dollar end_ : Z) : state -> res :=
       append_len separator (dollar - separator) ;;;
       match find_mapping rust_mappings (suffix (dollar + 1)) with
       | Some (code, punc) =>
+          if fixed && (dollar + Z.of_nat (List.length code) + 2 >? end_) then ret p else
           let num' := if prefix_of (str "$u20$as$u20$") (suffix dollar)
                       then num + (end_ - dollar)
                       else num + Z.of_nat (List.length code) + 2 in
@@ -393,8 +401,8 @@ Definition dd_source_name : M :=
   p0 <- gets pos ;;
   l0 <- gets len ;;
   if e =? 1 then dbg 0 else
-  if p0 + num >? INT_MAX then fail F_int_overflow else
-  if p0 + num >? l0 then dbg 0 else
+  if negb fixed && (p0 + num >? INT_MAX) then fail F_int_overflow else
+  if (if fixed then num >? l0 - p0 else p0 + num >? l0) then dbg 0 else
   ty <- gets typ ;;
   ti <- getb type_info ;;
   tp <- gets templates ;;
@@ -766,7 +774,7 @@ Definition type_loop (r : Z) : M :=            (* body of LType r: one iteration
   else if c =? ch "F" then rec FFunctionType
   else if c =? ch "T" then
     c1 <- peek 1 ;;
-    if strchr_set (str "sue") c1 then consume_n 2 ;;; rec FName
+    if strchr_g (str "sue") c1 then consume_n 2 ;;; rec FName
     else if (c1 =? ch "_") || isdigit c1 then
       r1 <- dd_template_param ;;
       c2 <- curr ;;
@@ -776,7 +784,7 @@ Definition type_loop (r : Z) : M :=            (* body of LType r: one iteration
   else if c =? ch "M" then rec FPtrToMember
   else if c =? ch "D" then
     c1 <- peek 1 ;;
-    if strchr_set (str "defhisacnu") c1 then consume_n 2 ;;; ret 0
+    if strchr_g (str "defhisacnu") c1 then consume_n 2 ;;; ret 0
     else if c1 =? ch "p" then consume_n 2 ;;; rec (LType r)
     else if c1 =? ch "v" then rec FVectorType ;;; rec (LType r)
     else if (c1 =? ch "t") || (c1 =? ch "T") then rec FDecltype
@@ -817,7 +825,7 @@ Definition dd_special_name : M :=
   if e =? 1 then ret (-1) else
   let fallthrough : M := dbg 0 in
   if c0 =? ch "T" then
-    if strchr_set T_type c1 then
+    if strchr_g T_type c1 then
       consume_n 2 ;;;
       modify (fun st => set_type_info st true) ;;;
       match index_of c1 T_type with
@@ -880,7 +888,7 @@ Definition dd_ctor_dtor_name : M :=
     if negb (ty =? 0) then ret r else
     fun st =>
       match out st with
-      | None => Fault F_null_out
+      | None => if fixed then R (-1) st else Fault F_null_out
       | Some o =>
           let last := match rindex_of (ch ":") o 0 None with
                       | Some i => skipn (Z.to_nat (i + 1)) o
@@ -930,7 +938,7 @@ Definition dd_unqualified_name : M :=
            expect (ch "_")
              (ty <- gets typ ;;
               if negb (ty =? 0) then ret 0 else
-              if n + 1 >? INT_MAX then fail F_int_overflow else
+              if negb fixed && (n + 1 >? INT_MAX) then fail F_int_overflow else
               append_separator (str "::") ;;;
               append (str "$_" ++ dec_text (n + 1)) ;;;
               finish 0) in
@@ -1048,10 +1056,10 @@ Definition body (f : fn) : M :=
   end.
 End Parser.
 
-Fixpoint run (full : list Z) (base : Z) (fuel : nat) (f : fn) : M :=
+Fixpoint run (fixed : bool) (full : list Z) (base : Z) (fuel : nat) (f : fn) : M :=
   match fuel with
   | O => fun _ => OOF
-  | S k => body full base (run full base k) f
+  | S k => body fixed full base (run fixed full base k) f
   end.
 
 (* ================================================================== demangle_simple *)
@@ -1068,31 +1076,32 @@ Definition st0 (l : Z) : state := mkst 0 l None 0 0 0 false true false false.
 Definition stripped (s : list Z) : list Z := if prefix_of prefix_str s then skipn 15 s else s.
 Definition mangled_form (s : list Z) : bool := prefix_of (str "_Z") (stripped s).
 
-(* dd.new == NULL after a successful parse: demangle_simple returns NULL; with the prefix it
-   passes NULL to xasprintf("%s") (undefined; glibc prints "(null)") - both are outcome Null *)
-Definition finish (has_prefix : bool) (st : state) : outcome :=
+(* dd.new == NULL after a successful parse: now the input comes back; as found demangle_simple
+   returned NULL (with the prefix it passed NULL to xasprintf("%s"): undefined, glibc prints "(null)") *)
+Definition finish (fixed : bool) (s : list Z) (has_prefix : bool) (st : state) : outcome :=
   match out st with
   | Some o => Str (if has_prefix then prefix_str ++ o else o)
-  | None => Null
+  | None => if fixed then Str s else Null
   end.
 
 Definition of_res (s : list Z) (r : res) (k : Z -> state -> outcome) : outcome :=
   match r with R v st => k v st | Fault f => Crash f | OOF => Hang end.
 
-Definition demangle_fuel (fuel : nat) (s : list Z) : outcome :=
+Definition demangle_fuel (fixed : bool) (fuel : nat) (s : list Z) : outcome :=
   let has_prefix := prefix_of prefix_str s in
   let base := if has_prefix then 15 else 0 in
   if negb (mangled_form s) then Str s else
   let l := Z.of_nat (List.length s) - base in
-  of_res s (run s base fuel FEncoding (st0 l)) (fun v st =>
+  of_res s (run fixed s base fuel FEncoding (st0 l)) (fun v st =>
     if (v <? 0) || negb (level st =? 0) then Str s
-    else if pos st >=? len st then finish has_prefix st
+    else if pos st >=? len st then finish fixed s has_prefix st
     else if negb (type_info st) then Str s
-    else of_res s (run s base fuel FName st) (fun v2 st2 =>
-           if v2 <? 0 then Str s else finish has_prefix st2)).
+    else of_res s (run fixed s base fuel FName st) (fun v2 st2 =>
+           if v2 <? 0 then Str s else finish fixed s has_prefix st2)).
 
 Definition fuel_of (s : list Z) : nat := 8 * List.length s + 64.
-Definition demangle (s : list Z) : outcome := demangle_fuel (fuel_of s) s.
+Definition demangle (s : list Z) : outcome := demangle_fuel true (fuel_of s) s.
+Definition demangle_legacy (s : list Z) : outcome := demangle_fuel false (fuel_of s) s.
 
 (* ================================================================== executable checkers *)
 Fixpoint list_eqb (a b : list Z) : bool :=
@@ -1117,18 +1126,16 @@ Definition ok_total (s : list Z) (i : impl) : bool :=
 Definition ok_expected (want : list Z) (i : impl) : bool :=
   match i with IStr r => list_eqb r want | _ => false end.
 
-(* correspondence: where the model returns a string the implementation must return exactly that
-   string; where the model reaches a Fault, returns NULL or does not return, the code as found
-   has a defect (see the *_refuted theorems): nothing is compared there, but the outcome class
-   the model predicts (model_class) must match the way the implementation fails *)
+(* correspondence: the implementation must do exactly what the model (of the code as it is now) does *)
 Definition agrees (s : list Z) (i : impl) : bool :=
   match demangle s, i with
   | Str a, IStr b => list_eqb a b
-  | Str _, _ => false
-  | _, _ => true
+  | Null, INull => true
+  | Crash _, ICrash => true
+  | Hang, IHang => true
+  | _, _ => false
   end.
-(* classification of a rejected case by the model: 0 = model predicts a proper string (new
-   defect), k > 0 = the fault class the model predicts *)
+(* what the model predicts (diagnostics): 0 = a proper string, k > 0 = fault / no return / NULL *)
 Definition fault_code (k : fault) : nat :=
   match k with
   | F_null_out => 1 | F_int_overflow => 2 | F_over_read => 3 | F_under_read => 4
